@@ -12,13 +12,24 @@ using vshim::thread;
 
 static int g_destroyed;
 
+struct Obj;
+static Obj* g_obj;
 struct Obj : public tlx::ReferenceCounter {
     int payload = 7;
+    Obj() { g_obj = this; }
     ~Obj() {
         payload = -1;
         g_destroyed++;
+        g_obj = nullptr;
     }
 };
+// explicit-state mode: shared state = the reference count (while the object lives) and the destructor count;
+// a thread's handles are determined by its position in its straight-line script (distinct call sites)
+__attribute__((no_sanitize("thread"))) static uint64_t cp_state() {
+    uint64_t h = (uint64_t)g_destroyed * 1000003 + 17;
+    if (g_obj) h = h * 31 + g_obj->reference_count_.vs_peek();
+    return h * 0x9E3779B97F4A7C15ull;
+}
 typedef tlx::CountingPtr<Obj> P;
 
 static void use(const P& p) {
@@ -72,6 +83,7 @@ static void script(char s, P& mine, const P& common) {
 
 static void body(const std::string& scripts, bool main_drops_late, bool with_common) {
     g_destroyed = 0;
+    g_obj = nullptr;
     {
         P root(new Obj());
         std::vector<P> own(scripts.size(), root);
@@ -116,6 +128,13 @@ int main(int argc, char** argv) {
             sc.whole = true;
             sc.horizon = 5000;
             scs.push_back(sc);
+            // explicit-state (unbounded) exploration of the same scenario
+            vx::Scenario sx = sc;
+            sx.name = "X:" + sc.name;
+            sx.stateful = true;
+            sx.state_cb = &cp_state;
+            sx.thorough_only = scripts.size() > 2;
+            scs.push_back(sx);
         }
     };
     for (size_t a = 0; a < S.size(); ++a)
